@@ -25,6 +25,7 @@ ASSUMPTIONS = [
     'four-column bin edges are centre +/- width/2 in wavelength, reported as 10000/edge in ascending wavenumber; three-column edges are wavelength mid-points (ends mirrored)',
     'binner alignment judged with the C05 overlap-mean reference on a fine native grid (rtol 1e-9)',
 ]
+RULE = RULE + ' ' + 'Also: rows handed over as an integer array, the binner of an observation with tied rows, a native grid covering only the upper part of the observation.'
 REQUIRED = {'binner:partial-coverage': 0.2, 'rows:integer-array': 0.06, 'perm:extremes-at-the-ends': 0.15, 'tied-wavelengths': 0.015, 'source:array': 0.2, 'source:text': 0.1, 'source:hdf5-class': 0.08, 'source:hdf5-func': 0.08,
             'cols:4': 0.3, 'cols:3': 0.05, 'permuted': 0.4}
 # coverage-guided extra (thorough tier): pure-Python taurex modules on this property's path, instrumented by atheris
